@@ -10,6 +10,8 @@ an ether.  Every nondeterministic choice goes through the Chooser.  At every tra
   lose_peer / lose_all    the other end / nobody hears this transmission
   deaf_cmd / lose_cmd     the other end / nobody hears this command at all (every retransmission of it)
   late(dt)                the other end hears it dt seconds late: just inside / outside the 3 s and 5 s waits
+  tie(n)                  the other end hears it n = 1..5 loop iterations before the wait it ends expires (an iteration takes
+                          0.3 ms here): the packet is still being worked off when the time-out falls due
   cancel(role)            that caller abandons its attempt (task cancelled)
   third(kind)             unrelated binding traffic is heard by both ends just after it: a third party's offer,
                           a broadcast offer, an accept addressed to someone else, a confirm addressed to someone else
@@ -35,6 +37,7 @@ PROPERTY = "C20"
 LEVEL = "model_checking"
 
 GR, GS = "18:000000", "18:111111"
+BATCH = 0.0003
 HORIZON = 90.0
 END_BOUND_RESP = 5.1 + 10.0 + 3.0 + 3.0 + 1.0  # offer wait + accept send (QoS) + confirm wait + addenda wait
 END_BOUND_SUPP = 10.0 + 5.1 + 10.0 + 5.0 + 10.0 + 5.0 + 1.0  # offer send + accept wait + confirm send/echo + addenda send/echo
@@ -146,6 +149,7 @@ class BindWorld:
         self.flow = FLOWS[params["flow"]]
         self.w = G.GwyWorld()
         self.loop = self.w.loop
+        self.loop.batch_cost = BATCH  # a loop iteration takes 0.3 ms: a timer can fall due while a packet is still being worked off
         self.faults = True
         known = {**self.flow["resp"], **self.flow["supp"], **THIRD_DEVICES}  # (third parties must pass the filter to be heard at all)
         cfg = {"disable_discovery": True, "disable_qos": False, "enforce_known_list": True}
@@ -168,6 +172,23 @@ class BindWorld:
         if not self.loop.dead:
             self.w.rx(frame, gi=gi, settle=False)
 
+    def _hear_tie(self, gi: int, frame: str, n: int) -> None:
+        """Deliver so that the expiry of the wait this packet ends falls due while the packet is still being worked off:
+        n loop iterations (less half of one) before the earliest armed wait_for time-out that is more than 1 s away (by now
+        the sender's own echo wait is over)."""
+        if self.loop.dead:
+            return
+        now = self.loop.time()
+        whens = sorted(
+            h._when
+            for h in self.loop._scheduled
+            if not h._cancelled and getattr(h._callback, "__name__", "") == "_on_timeout" and h._when > now + 1.0
+        )
+        if whens:
+            self.loop.call_at(whens[0] - (n - 0.5) * BATCH, self._hear, gi, frame)
+        else:
+            self._hear(gi, frame)
+
     def _on_write(self, tx, frame: str) -> None:
         loop = self.loop
         me = self.w.txs.index(tx)
@@ -185,6 +206,7 @@ class BindWorld:
                 menu += [(("lose_peer",), 1), (("lose_all",), 1), (("lose_cmd",), 1), (("deaf_cmd",), 1)]
             if "late" in self.dev:
                 menu += [(("late", dt), 1) for dt in (2.95, 3.05, 4.95, 5.05, 5.15)]
+                menu += [(("tie", n), 1) for n in (1, 2, 3, 4, 5)]
             if "third" in self.dev:
                 menu += [(("third", k), 1) for k in sorted(THIRD) if k not in self.third_done]
             if "cancel" in self.dev:
@@ -208,6 +230,9 @@ class BindWorld:
         for t in times:
             loop.call_later(t, self._hear, me, wire)
             if k == "lose_peer":
+                continue
+            if k == "tie":
+                loop.call_later(0.05, self._hear_tie, peer, wire, fate[1])
                 continue
             loop.call_later(t + (fate[1] if k == "late" else 0.0), self._hear, peer, wire)
         if k == "third":
